@@ -256,6 +256,14 @@ def nested_same(c, ni, outer_explicit, inner_explicit, v, indef):
     return "a type whose inner tag number differs accepts the encoding"
 
 
+def chunked_tags(sid, defMode, chunk, **slots):
+    """Tagged string types encoded in fragments (maxChunkSize 1..2): the outer identifier octets are the type's tags with the constructed bit,
+    the fragments carry the universal OCTET STRING / BIT STRING tag - judged by the independent reference reader."""
+    from props import C03
+
+    return C03.read_ber(sid, defMode, chunk, **slots)
+
+
 OBLIGATIONS = [
     Obl("nested_same", nested_same, {"c": I(0, 2), "ni": I(0, len(POOL) - 1), "outer_explicit": B, "inner_explicit": B, "v": I(127, 128), "indef": B},
         shards=[{"ni": C(a), "outer_explicit": C(o_)} for a in range(len(POOL)) for o_ in (False, True)], budget=120,
@@ -274,6 +282,9 @@ OBLIGATIONS = [
         shards=[{"base": C(b)} for b in range(len(BASES))], budget=120,
         doc="one tagging step from each representative stack vs a list model; explicit UNIVERSAL refused; identifier octets on the wire"),
 ]
+for e in all_entries():
+    if e.t.tags and (e.t.kind in ("OCTS", "BITS") or e.t.is_str) and not e.has("corpus"):
+        OBLIGATIONS.append(entry_obl("chunked_tags", chunked_tags, e, extra={"defMode": B, "chunk": I(1, 2)}, narrow=True, budget=90))
 for e in all_entries():
     if e.t.tags:
         OBLIGATIONS.append(entry_obl("perturb", perturb, e, extra={"level": I(0, 3), "what": I(0, 2)}, narrow=True, budget=90))
